@@ -1,5 +1,6 @@
 import PycModel.Parser.Stmt
 import PycModel.Proofs.ParenExpr
+import PycModel.Proofs.FullExpr
 /-!
 # C17 — the AST (minus coordinates) depends only on the token sequence
 
@@ -79,5 +80,78 @@ theorem redundant_parentheses_change_only_coordinates (e : E) (m : Nat) (hwf0 : 
   refine ⟨_, _, s1', s2', hr1, hr2, ?_⟩
   have := congrArg erase (paren_transparent ⟨"", 0, none⟩ e s1.idx s2.idx)
   rwa [erase_mapCoords, erase_mapCoords] at this
+
+/-! ## ... for the whole expression grammar of `Proofs/FullExpr.lean` -/
+open PycModel.FullExpr in
+/-- the coordinate-free AST of an expression does not depend on where its tokens are -/
+theorem erase_val_indep (e : X) : (∀ n n', erase (e.val n) = erase (e.val n')) ∧
+    (∀ n n', eraseL (X.items n e) = eraseL (X.items n' e)) := by
+  induction e with
+  | id x => exact ⟨fun _ _ => rfl, fun _ _ => rfl⟩
+  | const k v t => exact ⟨fun _ _ => rfl, fun _ _ => rfl⟩
+  | paren e ih =>
+    exact ⟨fun n n' => ih.1 _ _, fun n n' => by simp only [X.items, eraseL]; rw [ih.1 (n + 1) (n' + 1)]⟩
+  | pre k v e ih =>
+    have h : ∀ n n', erase ((X.pre k v e).val n) = erase ((X.pre k v e).val n') := by
+      intro n n'; simp only [X.val, mk, erase, eraseL]; rw [ih.1 (n + 1) (n' + 1)]
+    exact ⟨h, fun n n' => by have := h n n'; simp only [X.val] at this; simp only [X.items, eraseL, this]⟩
+  | szof e ih =>
+    have h : ∀ n n', erase ((X.szof e).val n) = erase ((X.szof e).val n') := by
+      intro n n'; simp only [X.val, mk, erase, eraseL]; rw [ih.1 (n + 1) (n' + 1)]
+    exact ⟨h, fun n n' => by have := h n n'; simp only [X.val] at this; simp only [X.items, eraseL, this]⟩
+  | post k v e ih =>
+    have h : ∀ n n', erase ((X.post k v e).val n) = erase ((X.post k v e).val n') := by
+      intro n n'; simp only [X.val, mk, erase, eraseL]; rw [ih.1 n n']
+    exact ⟨h, fun n n' => by have := h n n'; simp only [X.val] at this; simp only [X.items, eraseL, this]⟩
+  | index e i ihe ihi =>
+    have h : ∀ n n', erase ((X.index e i).val n) = erase ((X.index e i).val n') := by
+      intro n n'; simp only [X.val, mk, erase, eraseL]; rw [ihe.1 n n', ihi.1 (n + e.ntoks + 1) (n' + e.ntoks + 1)]
+    exact ⟨h, fun n n' => by have := h n n'; simp only [X.val] at this; simp only [X.items, eraseL, this]⟩
+  | member k v e f ih =>
+    have h : ∀ n n', erase ((X.member k v e f).val n) = erase ((X.member k v e f).val n') := by
+      intro n n'; simp only [X.val, mk, erase, eraseL, ParenExpr.idNode]; rw [ih.1 n n']
+    exact ⟨h, fun n n' => by have := h n n'; simp only [X.val] at this; simp only [X.items, eraseL, this]⟩
+  | call0 f ih =>
+    have h : ∀ n n', erase ((X.call0 f).val n) = erase ((X.call0 f).val n') := by
+      intro n n'; simp only [X.val, mk, erase, eraseL]; rw [ih.1 n n']
+    exact ⟨h, fun n n' => by have := h n n'; simp only [X.val] at this; simp only [X.items, eraseL, this]⟩
+  | call f a ihf iha =>
+    have h : ∀ n n', erase ((X.call f a).val n) = erase ((X.call f a).val n') := by
+      intro n n'; simp only [X.val, mk, erase, eraseL]
+      rw [ihf.1 n n', iha.2 (n + f.ntoks + 1) (n' + f.ntoks + 1)]
+    exact ⟨h, fun n n' => by have := h n n'; simp only [X.val] at this; simp only [X.items, eraseL, this]⟩
+  | bin k v l r ihl ihr =>
+    have h : ∀ n n', erase ((X.bin k v l r).val n) = erase ((X.bin k v l r).val n') := by
+      intro n n'; simp only [X.val, mk, erase, eraseL]; rw [ihl.1 n n', ihr.1 (n + l.ntoks + 1) (n' + l.ntoks + 1)]
+    exact ⟨h, fun n n' => by have := h n n'; simp only [X.val] at this; simp only [X.items, eraseL, this]⟩
+  | cond c t f ihc iht ihf =>
+    have h : ∀ n n', erase ((X.cond c t f).val n) = erase ((X.cond c t f).val n') := by
+      intro n n'; simp only [X.val, mk, erase, eraseL]
+      rw [ihc.1 n n', iht.1 (n + c.ntoks + 1) (n' + c.ntoks + 1),
+        ihf.1 (n + c.ntoks + 1 + t.ntoks + 1) (n' + c.ntoks + 1 + t.ntoks + 1)]
+    exact ⟨h, fun n n' => by have := h n n'; simp only [X.val] at this; simp only [X.items, eraseL, this]⟩
+  | assign k v l r ihl ihr =>
+    have h : ∀ n n', erase ((X.assign k v l r).val n) = erase ((X.assign k v l r).val n') := by
+      intro n n'; simp only [X.val, mk, erase, eraseL]; rw [ihl.1 n n', ihr.1 (n + l.ntoks + 1) (n' + l.ntoks + 1)]
+    exact ⟨h, fun n n' => by have := h n n'; simp only [X.val] at this; simp only [X.items, eraseL, this]⟩
+  | comma a b iha ihb =>
+    refine ⟨fun n n' => ?_, fun n n' => ?_⟩
+    · simp only [X.val, mk, erase, eraseL]; rw [iha.1 n n', ihb.2 (n + a.ntoks + 1) (n' + a.ntoks + 1)]
+    · simp only [X.items, eraseL]; rw [iha.1 n n', ihb.2 (n + a.ntoks + 1) (n' + a.ntoks + 1)]
+
+open PycModel.FullExpr PycModel.View in
+/-- **Redundant parentheses change nothing but coordinates, for the whole expression grammar**
+(identifiers, constants, postfix and prefix operators, `sizeof`, binary operators, `?:`, assignment,
+comma; any size): what `_parse_expression` returns for `( e )` and for `e`, from any two states that
+see them, are the same tree once coordinates are erased. -/
+theorem redundant_parentheses_change_only_coordinates_full (e : X) (hwf : WFX 0 e)
+    (s1 s2 : PState) (stop : Tk) (rest1 rest2 : List Tk) (hstop : StopX stop.1)
+    (h1 : SeesT s1 ((X.paren e).flat ++ stop :: rest1)) (h2 : SeesT s2 (e.flat ++ stop :: rest2))
+    (F : Nat) (hF : (X.paren e).fuel ≤ F) :
+    ∃ v1 v2 s1' s2', run F .expression s1 = .ok v1 s1' ∧ run F .expression s2 = .ok v2 s2' ∧
+      erase v1 = erase v2 := by
+  obtain ⟨s1', hr1, _, _⟩ := parse_full (.paren e) (.paren _ _ hwf) s1 stop rest1 hstop h1 F hF
+  obtain ⟨s2', hr2, _, _⟩ := parse_full e hwf s2 stop rest2 hstop h2 F (by simp only [X.fuel] at hF; omega)
+  exact ⟨_, _, s1', s2', hr1, hr2, (erase_val_indep e).1 _ _⟩
 
 end PycModel.C17
